@@ -11,6 +11,7 @@ from quansino.mc.canonical import Canonical
 from quansino.mc.contexts import DeformationContext
 from quansino.mc.criteria import CanonicalCriteria, IsobaricCriteria
 from quansino.moves.cell import CellMove
+from quansino.moves.composite import CompositeMove
 from quansino.moves.displacement import DisplacementMove
 
 if TYPE_CHECKING:
@@ -140,10 +141,20 @@ class Isobaric(Canonical[MoveType, CriteriaType], Generic[MoveType, CriteriaType
         if np.any(self.atoms.cell.array != np.asarray(self.context.last_cell)):
             notified = set()
 
+            def notify(move) -> None:
+                if id(move) in notified:
+                    return
+
+                notified.add(id(move))
+
+                if isinstance(move, CompositeMove):
+                    for sub_move in move.moves:
+                        notify(sub_move)
+                else:
+                    move.on_cell_changed(self.atoms.get_cell())
+
             for move_storage in self.moves.values():
-                if id(move_storage.move) not in notified:
-                    notified.add(id(move_storage.move))
-                    move_storage.move.on_cell_changed(self.atoms.get_cell())
+                notify(move_storage.move)
 
         super().save_state()
 
